@@ -147,4 +147,20 @@ PROPS = {
                     "depolarize2_independent (the 8th-root identity) is not proved"],
         "assumptions": [],
     },
+    "C06": {
+        "lean_modules": ["StimModel.Props.C06", "StimModel.Core.Fold"],
+        "areas": [
+            {"area": "fold", "n": {"quick": 400, "thorough": 8000}, "replayable": True, "timeout": 1500},
+            {"area": "cdem", "n": {"quick": 150, "thorough": 3000}, "replayable": True},
+        ],
+        "rule": "loop circuits from 6 body templates (rotating data, measure-reset with cross-iteration detectors, observables accumulating across iterations, delayed feedback, nested loops, "
+                "repetition-code rounds) with designed transient 0..6 and period 1..6, repetition counts {1..6, 9, 10, 11, 50, around transient+period, 1000, 10^6}: folded vs unfolded models "
+                "(flattened + merged, and detector coordinates), folded model judged by the Lean distribution oracle of C03 for <= 12 repetitions, compressed vs direct reference sample "
+                "(+ random access, simplified) and its possibility per the Lean simulator, detecting regions / feedback inlining on the looped vs the flattened circuit; plus fold_loops on/off of the "
+                "QEC-like circuits of the cdem area; distinct = distinct circuit texts",
+        "trusted_base": [],
+        "partial": ["revtrack_shift_equivariant (the hypothesis of fold_sound for the concrete tracker) is not proved; the concrete implementations are compared with unrolling",
+                    "reftree_decompress is validated by correspondence"],
+        "assumptions": [],
+    },
 }
